@@ -958,7 +958,7 @@ static void do_hs(char **w, int n)
 	C.cutread_rv = S.cutread_rv = C.cutclose_rv = S.cutclose_rv = -99;
 	C.hs_rv = S.hs_rv = -99;
 	g_chunk_max = P.chunk; g_rbuf_max = 65536;
-	for (i = 0; i < 2; i++) { C.wbuf[i] = malloc(P.chunk); S.wbuf[i] = malloc(P.chunk); }
+	for (i = 0; i < 2; i++) { C.wbuf[i] = malloc(P.chunk < 64 ? 64 : P.chunk); S.wbuf[i] = malloc(P.chunk < 64 ? 64 : P.chunk); }
 	if (P.cut == 0) { if (P.first == 0) C.closer = 1; else S.closer = 1; }
 	else {
 		/* cut 1/3: client cuts, 2/4: server cuts; 1/2: the victim reads first, 3/4: closes at once */
@@ -967,18 +967,42 @@ static void do_hs(char **w, int n)
 	}
 	g_sched = P.seed;
 
-	/* ---- the schedule: pick an endpoint (bias/256 for the client), let it make `run` calls */
-	maxsteps = 400000 + 64 * (P.n / 16);
-	while (steps < maxsteps) {
-		struct ep *e, *o;
-		int run, active_c = C.phase < PH_DONE, active_s = S.phase < PH_DONE;
-		if (!active_c && !active_s) break;
-		e = (rnd(256) < (unsigned)P.bias) ? &C : &S;
-		if (e == &C && !active_c) e = &S;
-		if (e == &S && !active_s) e = &C;
-		o = (e == &C) ? &S : &C;
-		run = 1 + rnd(P.burst);
-		while (run-- > 0 && e->phase < PH_DONE) { ep_step(e, o); steps++; }
+	/* ---- the schedule: pick an endpoint (bias/256 for the client), let it make `run` calls.
+	 * An endpoint whose last call said WANT_* is mostly left alone until its peer has done
+	 * something (as an event loop would), but is woken spuriously one time in eight.
+	 * STALL = no byte moved and no phase changed during 200000 consecutive calls. */
+	maxsteps = 200000;
+	{
+		long idle = 0;
+		int blocked[2] = { 0, 0 };	/* last call returned WANT_* and the peer has not moved since */
+		while (idle < maxsteps) {
+			struct ep *e, *o;
+			int run, active_c = C.phase < PH_DONE, active_s = S.phase < PH_DONE, ei;
+			if (!active_c && !active_s) break;
+			e = (rnd(256) < (unsigned)P.bias) ? &C : &S;
+			if (e == &C && !active_c) e = &S;
+			if (e == &S && !active_s) e = &C;
+			o = (e == &C) ? &S : &C;
+			ei = e == &S;
+			if (blocked[ei] && o->phase < PH_DONE && !blocked[!ei] && rnd(8) != 0)
+				continue;
+			if (blocked[ei] && blocked[!ei] && rnd(8) != 0 && 0)
+				continue;
+			run = 1 + rnd(P.burst);
+			while (run-- > 0 && e->phase < PH_DONE) {
+				int ph = e->phase;
+				size_t moved = e->nin + e->nout;
+				long wants = e->nwants;
+				ep_step(e, o);
+				steps++;
+				if (e->phase != ph || e->nin + e->nout != moved) { idle = 0; blocked[!ei] = 0; }
+				else idle++;
+				blocked[ei] = e->nwants != wants;
+				if (blocked[ei]) break;
+			}
+		}
+		if (idle < maxsteps) maxsteps = steps + 1;	/* no stall */
+		else maxsteps = steps;
 	}
 
 	/* established = both handshakes returned 0 and one byte went each way */
